@@ -158,6 +158,23 @@ def run_generated(desc, acc):
                 if not all(sid_clean(x.id) for x in list(model.reactions) + list(model.metabolites) + list(model.genes)):
                     acc.count("skipped_not_sid_clean")
                     continue
+                if rng.random() < 0.5:
+                    # identifiers that *look* like the default replacement had been applied
+                    # (R_, M_, G_ prefixes, __NN__ escapes): without replacement they are
+                    # plain identifiers and must come back as they are
+                    from cobra.manipulation import rename_genes
+
+                    try:
+                        for r in rng.sample(list(model.reactions), min(2, len(model.reactions))):
+                            r.id = "R_" + r.id
+                        for m_ in rng.sample(list(model.metabolites), min(2, len(model.metabolites))):
+                            m_.id = rng.choice(["M_", "M__45__"]) + m_.id
+                        if len(model.genes):
+                            g0 = rng.choice(list(model.genes))
+                            rename_genes(model, {g0.id: "G_" + g0.id})
+                        acc.count("no_replacement_models_with_prefix_like_ids")
+                    except Exception:
+                        pass
             cfg = cobra.Configuration()
             cfg_old = cfg.bounds
             cfg_new = rng.choice([None, None, None, (-10000.0, 10000.0), (-100.0, 100.0), (-999999.0, 999999.0), (-1000.0, 500.0), (0.0, 1000.0)])
@@ -314,7 +331,7 @@ def independent_read(path):
         if model.find(".//" + k + "listOfObjectives") is not None or any(k + "lowerFluxBound" in r.attrib for r in model.iter(ns_core + "reaction")):
             fbc_ns = k
     if fbc_ns is None:
-        return None
+        return _independent_read_legacy(model, ns_core)
     params = {}
     for p in model.iter(ns_core + "parameter"):
         if "value" in p.attrib:
@@ -343,6 +360,42 @@ def independent_read(path):
                     coefs[fo.attrib[fbc_ns + "reaction"]] = float(fo.attrib[fbc_ns + "coefficient"])
                 obj = {"type": o.attrib.get(fbc_ns + "type"), "coefs": {k: v for k, v in coefs.items() if v != 0}}
     return {"reactions": rx, "objective": obj}
+
+
+def _independent_read_legacy(model, ns_core):
+    """COBRA-toolbox encoding of Level 2 / non-fbc documents: bounds and objective
+    coefficient are parameters of each reaction's kinetic law."""
+    def num(v):
+        return float({"INF": "inf", "-INF": "-inf"}.get(v, v))
+
+    rx = {}
+    coefs = {}
+    any_law = False
+    for r in model.iter(ns_core + "reaction"):
+        st = {}
+        for side, sgn in (("listOfReactants", -1), ("listOfProducts", 1)):
+            lst = r.find(ns_core + side)
+            if lst is None:
+                continue
+            for sr in lst.findall(ns_core + "speciesReference"):
+                st[sr.attrib["species"]] = st.get(sr.attrib["species"], 0.0) + sgn * float(sr.attrib.get("stoichiometry", "1"))
+        lb = ub = None
+        law = r.find(ns_core + "kineticLaw")
+        if law is not None:
+            for pel in list(law.iter(ns_core + "parameter")) + list(law.iter(ns_core + "localParameter")):
+                pid, val = pel.attrib.get("id"), pel.attrib.get("value")
+                if val is None:
+                    continue
+                if pid == "LOWER_BOUND":
+                    lb, any_law = num(val), True
+                elif pid == "UPPER_BOUND":
+                    ub, any_law = num(val), True
+                elif pid == "OBJECTIVE_COEFFICIENT" and num(val) != 0:
+                    coefs[r.attrib["id"]] = num(val)
+        rx[r.attrib["id"]] = {"stoich": {k: v for k, v in st.items() if v != 0}, "lb": lb, "ub": ub}
+    if not any_law:
+        return None
+    return {"reactions": rx, "objective": {"type": None, "coefs": coefs}, "legacy": True}
 
 
 class LogCatcher(logging.Handler):
@@ -430,7 +483,16 @@ def cross_check(acc, path, ident, label):
                 nbad += 1
         for nm, fv, mv in (("lower", rr["lb"], r.lower_bound), ("upper", rr["ub"], r.upper_bound)):
             if fv is not None and not ioequiv.feq(float(fv), float(mv), 15):
-                if sid not in said and rid not in said:
+                # a warning excuses an alteration only if it does not contradict the document:
+                # "Missing lower flux bound ..." about a bound the document does give is no excuse
+                lines = catcher.lines + [str(w.message) for w in wlist]
+                other = "upper" if nm == "lower" else "lower"
+                naming = [ln for ln in lines if (sid in ln or rid in ln) and "bound" in ln.lower() and not (other in ln.lower() and nm not in ln.lower())]
+                honest = [ln for ln in naming if not ln.startswith(f"Missing {nm} flux bound")]
+                if naming and not honest:
+                    acc.violation(f"C10/{label}/{nm}-bound-in-the-document-reported-missing", f"{os.path.basename(path)}: {sid} has a {nm} bound of {fv} in the document, the reader says it is missing and sets {mv}", dict(ident, reaction=sid))
+                    nbad += 1
+                elif not naming:
                     acc.violation(f"C10/{label}/{nm}-bound-silently-altered", f"{os.path.basename(path)}: {sid} {nm} bound in file {fv}, model has {mv}", dict(ident, reaction=sid))
                     nbad += 1
         if nbad > 3:
